@@ -2450,13 +2450,38 @@ func (s *Store) waitForLinearizableRead(currReadTerm uint64, linearizableTimeout
 	}
 
 	// Now, wait for it.
-	ch := s.fsmTarget.Subscribe(readIndex)
+	ch := s.fsmTarget.Subscribe(s.fsmReadIndex(readIndex))
 	select {
 	case <-ch:
 		return nil
 	case <-time.After(lt):
 		return fmt.Errorf("index %d: %w", readIndex, ErrWaitForFSMTimeout)
 	}
+}
+
+// fsmReadIndex returns the index the FSM must reach before a read at commit
+// index idx can be served. Only command entries are passed to the FSM, so if
+// the newest committed entries are of any other type (cluster-membership
+// changes, barriers, Leader no-ops) their indexes will never be signalled by
+// the FSM. Those entries don't change the database, so it is sufficient to
+// wait for the newest command entry at or below idx.
+func (s *Store) fsmReadIndex(idx uint64) uint64 {
+	fsmIdx := s.fsmIdx.Load()
+	for idx > fsmIdx {
+		l := &raft.Log{}
+		if err := s.raftLog.GetLog(idx, l); err != nil {
+			if err == raft.ErrLogNotFound {
+				// Compacted, so covered by a snapshot, which the FSM is already past.
+				return fsmIdx
+			}
+			return idx
+		}
+		if l.Type == raft.LogCommand {
+			return idx
+		}
+		idx--
+	}
+	return idx
 }
 
 func (s *Store) isStaleRead(freshness int64, strict bool) bool {
